@@ -357,4 +357,147 @@ example : pace 2 (fun i k => ((Equiv.swap 0 1) k : ℚ) + i) (fun k _ => ((Equiv
           · rw [Equiv.swap_apply_of_ne_of_ne h0 h1])
     (fun i k => (k : ℚ) + i) (fun k _ => (k : ℚ)) 3 0
 
+/-! ## Gram (inner-product) route -/
+
+/-- The matrix handed to the solver on the Gram route is symmetric. -/
+theorem gram_route_symm (P : ℕ) (n : ℕ → ℕ) (t : ℕ → ℕ → ℚ) (D : ℕ → ℕ → ℕ → ℚ) (σ2 : ℕ → ℚ) (i k : ℕ) :
+    gramRouteMatrix P n t D σ2 i k = gramRouteMatrix P n t D σ2 k i := by
+  unfold gramRouteMatrix
+  apply Finset.sum_congr rfl; intro p _
+  have : basisGram (n p) (t p) (D p) i k = basisGram (n p) (t p) (D p) k i := inner_comm' _ _ _ _
+  rw [this]
+  by_cases h : i = k
+  · subst h; rfl
+  · have h' : ¬ k = i := fun e => h e.symm
+    simp [h, h']
+
+/-- **Product-space orthonormality on the Gram route.**  If `v_k`, `v_m` are orthonormal
+eigenvectors (`G′v = l v`) of the matrix handed to the solver, the eigenfunction numerators
+`D_pᵀv` satisfy `Σ_p ⟨D_pᵀv_k, D_pᵀv_m⟩ = (l_m + Σ_p σ_p²)·δ_km`: after division by `√l` the
+eigenfunctions are orthogonal, with squared norm `(l + σ²)/l` — exactly `1` in the noise-free
+case (no distinct-eigenvalue hypothesis). -/
+theorem gram_route_orthonormal (P N : ℕ) (n : ℕ → ℕ) (t : ℕ → ℕ → ℚ) (D : ℕ → ℕ → ℕ → ℚ) (σ2 : ℕ → ℚ)
+    (v : ℕ → ℕ → ℚ) (l : ℕ → ℚ) (k m : ℕ)
+    (hm : ∀ i < N, mulVec N (gramRouteMatrix P n t D σ2) (col v m) i = l m * v i m)
+    (hon : dot N (col v k) (col v m) = if k = m then 1 else 0) :
+    prodInner P n t (fun p => gramEigenNum N (D p) v k) (fun p => gramEigenNum N (D p) v m)
+      = if k = m then l m + ∑ p ∈ range P, σ2 p else 0 := by
+  rw [prodInner_gramEigenNum, bil_gramRoute P N n t D σ2]
+  unfold bil
+  have e : (fun i => l m * v i m) = fun i => l m * col v m i := rfl
+  rw [dot_congr_right _ hm, e, dot_smul_right, hon]
+  by_cases h : k = m <;> simp [h]
+
+/-- Noise-free case with the roots `ρ_k² = l_k ≠ 0`: the coded eigenfunctions are orthonormal
+in the product space. -/
+theorem gram_route_orthonormal_noise_free (P N : ℕ) (n : ℕ → ℕ) (t : ℕ → ℕ → ℚ) (D : ℕ → ℕ → ℕ → ℚ)
+    (v : ℕ → ℕ → ℚ) (l ρ : ℕ → ℚ) (k m : ℕ)
+    (hm : ∀ i < N, mulVec N (gramRouteMatrix P n t D fun _ => 0) (col v m) i = l m * v i m)
+    (hon : dot N (col v k) (col v m) = if k = m then 1 else 0)
+    (hρk : ρ k ≠ 0) (hρm : ρ m ≠ 0) (hρ : ρ m ^ 2 = l m) :
+    prodInner P n t (fun p => gramEigenfunction N ρ (D p) v k) (fun p => gramEigenfunction N ρ (D p) v m)
+      = if k = m then 1 else 0 := by
+  have key := gram_route_orthonormal P N n t D (fun _ => 0) v l k m hm hon
+  have e : prodInner P n t (fun p => gramEigenfunction N ρ (D p) v k) (fun p => gramEigenfunction N ρ (D p) v m)
+      = prodInner P n t (fun p => gramEigenNum N (D p) v k) (fun p => gramEigenNum N (D p) v m) / (ρ k * ρ m) := by
+    unfold prodInner
+    rw [Finset.sum_div]
+    apply Finset.sum_congr rfl; intro p _
+    unfold gramEigenfunction inner trapz
+    rw [Finset.sum_div]
+    apply Finset.sum_congr rfl; intro j _
+    field_simp
+  rw [e, key]
+  by_cases h : k = m
+  · subst h
+    simp only [if_true, Finset.sum_const_zero, add_zero]
+    rw [← hρ]; field_simp
+  · simp [h]
+
+/-- **NumInt scores of the training curves = InnPro scores** (noise-free Gram route):
+`Σ_p ⟨D_p[i], ψ_k^{(p)}⟩ = √l_k · v_ik`. -/
+theorem gram_route_numint_eq_innpro (P N : ℕ) (n : ℕ → ℕ) (t : ℕ → ℕ → ℚ) (D : ℕ → ℕ → ℕ → ℚ)
+    (v : ℕ → ℕ → ℚ) (l ρ : ℕ → ℚ) (k i : ℕ) (hi : i < N)
+    (hk : ∀ i < N, mulVec N (gramRouteMatrix P n t D fun _ => 0) (col v k) i = l k * v i k)
+    (hρ0 : ρ k ≠ 0) (hρ : ρ k ^ 2 = l k) :
+    numIntScore P n t (fun p => D p i) (fun p => gramEigenfunction N ρ (D p) v) k
+      = innProScores ρ v i k := by
+  unfold numIntScore prodInner innProScores
+  have h1 : ∀ p ∈ range P, inner (n p) (t p) (D p i) (gramEigenfunction N ρ (D p) v k)
+      = (∑ j ∈ range N, basisGram (n p) (t p) (D p) i j * v j k) / ρ k := by
+    intro p _
+    have e : gramEigenfunction N ρ (D p) v k = fun u => ∑ j ∈ range N, (v j k / ρ k) * D p j u := by
+      funext u; unfold gramEigenfunction gramEigenNum
+      rw [Finset.sum_div]; apply Finset.sum_congr rfl; intro j _; ring
+    rw [e, inner_sum_right, Finset.sum_div]
+    apply Finset.sum_congr rfl; intro j _
+    unfold basisGram; ring
+  rw [Finset.sum_congr rfl h1, ← Finset.sum_div, Finset.sum_comm]
+  have h2 : ∑ j ∈ range N, ∑ p ∈ range P, basisGram (n p) (t p) (D p) i j * v j k
+      = mulVec N (gramRouteMatrix P n t D fun _ => 0) (col v k) i := by
+    unfold mulVec gramRouteMatrix col
+    apply Finset.sum_congr rfl; intro j _
+    rw [Finset.sum_mul]
+    apply Finset.sum_congr rfl; intro p _
+    simp
+  rw [h2, hk i hi, ← hρ]
+  field_simp
+
+/-- Sample second moments of the InnPro scores are the reported eigenvalues `l/n`:
+`(1/N) Σ_i s_ik s_im = (l_k/N)·δ_km` for orthonormal eigenvectors. -/
+theorem gram_route_score_moments (N : ℕ) (v : ℕ → ℕ → ℚ) (l ρ : ℕ → ℚ) (k m : ℕ)
+    (hon : dot N (col v k) (col v m) = if k = m then 1 else 0) (hρ : ρ k ^ 2 = l k) :
+    (∑ i ∈ range N, innProScores ρ v i k * innProScores ρ v i m) / N
+      = if k = m then gramEigenvalue N l k else 0 := by
+  have : ∑ i ∈ range N, innProScores ρ v i k * innProScores ρ v i m = ρ k * ρ m * dot N (col v k) (col v m) := by
+    unfold innProScores dot col
+    rw [Finset.mul_sum]; apply Finset.sum_congr rfl; intro i _; ring
+  rw [this, hon]
+  by_cases h : k = m
+  · subst h; unfold gramEigenvalue; rw [← hρ]; simp only [if_true]; ring
+  · simp [h]
+
+/-- **Permutation on the Gram route is exact**: the matrix handed to the solver is a sum over the
+components, so any reordering `π` of the components leaves it — hence eigenvalues and scores —
+unchanged (no distinct-eigenvalue hypothesis, no sign ambiguity beyond the solver's). -/
+theorem gram_route_permutation (P : ℕ) (π : Equiv.Perm ℕ) (hπ : ∀ p, π p < P ↔ p < P) (n : ℕ → ℕ)
+    (t : ℕ → ℕ → ℚ) (D : ℕ → ℕ → ℕ → ℚ) (σ2 : ℕ → ℚ) (i k : ℕ) :
+    gramRouteMatrix P (fun p => n (π p)) (fun p => t (π p)) (fun p => D (π p)) (fun p => σ2 (π p)) i k
+      = gramRouteMatrix P n t D σ2 i k := by
+  unfold gramRouteMatrix
+  exact sum_range_perm P π hπ (fun p => basisGram (n p) (t p) (D p) i k - if i = k then σ2 p else 0)
+
+/-! ## NumInt scores and round trips in the product space -/
+
+/-- **NumInt scores of an expansion**: for eigenfunctions that are orthonormal in the product space,
+the NumInt scores of `Σ_k a_k ψ_k` (component-wise, each on its own grid) are the `a_m`. -/
+theorem numint_of_expansion (P K : ℕ) (n : ℕ → ℕ) (t : ℕ → ℕ → ℚ) (ψ : ℕ → ℕ → ℕ → ℚ) (a : ℕ → ℚ) (m : ℕ)
+    (hm : m < K)
+    (hon : ∀ k < K, prodInner P n t (fun p => ψ p k) (fun p => ψ p m) = if k = m then 1 else 0) :
+    numIntScore P n t (fun p u => ∑ k ∈ range K, a k * ψ p k u) ψ m = a m := by
+  unfold numIntScore prodInner
+  have h : ∀ p ∈ range P, inner (n p) (t p) (fun u => ∑ k ∈ range K, a k * ψ p k u) (ψ p m)
+      = ∑ k ∈ range K, a k * inner (n p) (t p) (ψ p k) (ψ p m) := fun p _ => inner_sum_left _ _ _ _ _ _
+  rw [Finset.sum_congr rfl h, Finset.sum_comm]
+  have h2 : ∀ k ∈ range K, ∑ p ∈ range P, a k * inner (n p) (t p) (ψ p k) (ψ p m)
+      = a k * if k = m then 1 else 0 := by
+    intro k hk
+    rw [← Finset.mul_sum]
+    congr 1
+    exact hon k (mem_range.mp hk)
+  rw [Finset.sum_congr rfl h2]
+  simp [hm]
+
+/-- **Round trip with normalisation, end to end.**  If the centred curve rescaled by `1/r`
+(`r² = weight ≠ 0`, the rescaling `fit` applies with `normalize=True`) is the expansion
+`Σ_m s_m ψ_m` of its scores, `inverse_transform` gives the curve back: mean `+ r·Σ_m s_m ψ_m`. -/
+theorem normalize_roundtrip (K : ℕ) (r : ℚ) (hr : r ≠ 0) (mean x : ℕ → ℚ) (S ψ : ℕ → ℕ → ℚ) (i t : ℕ)
+    (hx : (x t - mean t) / r = ∑ m ∈ range K, S i m * ψ m t) :
+    inverseTransform K r mean S ψ i t = x t := by
+  unfold inverseTransform
+  rw [← hx]; field_simp; ring
+
+example : inverseTransform 1 2 (fun _ => 1) (fun _ _ => 3) (fun _ _ => 1) 0 0 = 7 :=
+  normalize_roundtrip 1 2 (by norm_num) (fun _ => 1) (fun _ => 7) _ _ 0 0 (by norm_num)
+
 end C04
